@@ -1,6 +1,8 @@
 package govc
 
 import (
+	"os"
+	"path/filepath"
 	"fmt"
 	"go/token"
 	"go/types"
@@ -119,6 +121,9 @@ func (fr *Frame) execBlock(n *vnode) *exitPoint {
 				}
 				e.cond = And(n.reach, cc)
 				e.heap = n.heap
+				if x.prunePaths && fr == x.topFrame && !e.cond.IsFalse() && x.infeasible(e.cond) {
+					e.cond = False
+				}
 			}
 			return nil
 		case *ssa.Jump:
@@ -1200,7 +1205,7 @@ func (fr *Frame) typeAssert(n *vnode, i *ssa.TypeAssert) *Val {
 	var ok *Term
 	if _, isIface := i.AssertedType.Underlying().(*types.Interface); isIface {
 		x.eng.DeclareUF("implements", SBool, SInt, SInt)
-		ok = And(Neq(a.T, IntLit(0)), App("implements", SBool, x.dynType(a.T), x.typeID(i.AssertedType.String())))
+		ok = And(Neq(a.T, IntLit(0)), App("implements", SBool, x.dynType(a.T), x.typeIDOf(i.AssertedType)))
 	} else {
 		ok = And(Neq(a.T, IntLit(0)), Eq(x.dynType(a.T), x.typeIDOf(i.AssertedType)))
 	}
@@ -1284,4 +1289,21 @@ func (x *Exec) strCat(a, b *Term) *Term {
 		r = n
 	}
 	return r
+}
+
+// infeasible: a quick solver query "assumptions so far and this branch condition"; only a definite
+// unsat prunes the branch (sound: an infeasible path contributes no behaviour).
+func (x *Exec) infeasible(cond *Term) bool {
+	dir, err := os.MkdirTemp("", "govc-prune-")
+	if err != nil {
+		return false
+	}
+	defer os.RemoveAll(dir)
+	o := &Obligation{Name: "prune", Kind: "prune", Goal: Not(cond), NAssume: len(x.vc.Assumes)}
+	file := filepath.Join(dir, "q.smt2")
+	if os.WriteFile(file, []byte(x.eng.script(x.vc, o, nil, nil)), 0o644) != nil {
+		return false
+	}
+	res, _, _ := runSolver("z3-new", file, 1)
+	return res == "unsat"
 }
